@@ -40,6 +40,7 @@ def run(ctx: Ctx) -> None:
     orbits.rule_automorph(ctx)
     orbits.rule_iso_finder_bounds(ctx)
     orbits.rule_distinct_sources(ctx)
+    orbits.rule_iso_bounded(ctx)
     orbits.rule_labelled_equality(ctx)
     shapes.rule_relabel_form(ctx)
     tables.rule_api_numpy(ctx, [RELABEL], advisory_rels=(["graphiq/noise/time_depend_noise.py", "graphiq/io.py",
@@ -50,6 +51,8 @@ def run(ctx: Ctx) -> None:
 
 
 KNOCKOUTS = [
+    Knockout("iso-finder-plain-return-uncut", RELABEL, sub_once("            return adj_arr[:n_iso], mapping\n        return adj_arr[:n_iso]\n", "            return adj_arr[:n_iso], mapping\n        return adj_arr\n"), "iso.bounded", "unbounded return"),
+    Knockout("orbit-finder-keeps-input-beside-scrambled-start", RELABEL, sub_once("        orbit_list = [new_g]\n", "        orbit_list.append(new_g)\n"), "distinct.source", "untested append"),
     Knockout("equal-graphs-compares-attributes", RELABEL, sub_once("    return np.array_equal(adj1, adj2)\n\n\ndef _compare_graphs_visual", "    return nx.utils.graphs_equal(g1, g2)\n\n\ndef _compare_graphs_visual"), "cmp.labelled-graphs", "graphs_equal"),
     Knockout("equal-graphs-own-node-orders", RELABEL, sub_once("    adj2 = (nx.to_numpy_array(g2, nodelist=node_list)).astype(bool)", "    adj2 = (nx.to_numpy_array(g2)).astype(bool)"), "cmp.labelled-graphs", "no common node order"),
     Knockout("relabel-map-swapped", "graphiq/utils/relabel_module.py", sub_once("    GM = isomorphism.GraphMatcher(g1, g2)", "    GM = isomorphism.GraphMatcher(g2, g1)"), "relabel.map-direction", "swapped"),
